@@ -223,6 +223,12 @@ static int apply(int op, int k, unsigned char *member, proj *post)
             NODE *r = T_INSERT(&root, &nd[N + 1].node, cmp_nodes);
             ret = r == &nd[N + 1].node ? 98 : (r ? id_of(r) : 0);
             /* if the code wrongly linked the extra node, id_of() reports 99 in the projection */
+            /* ... and the resident object itself handed in again ("insert or get" with the same object): also a duplicate */
+            if (ret == k)
+            {
+                NODE *r2 = T_INSERT(&root, &nd[k].node, cmp_nodes);
+                if (r2 != &nd[k].node) { ret = r2 ? 97 : 0; }
+            }
         }
         else
         {
